@@ -204,20 +204,32 @@ Definition mon_step (h : aheader) (p : aobs) (it : aitem) : bool :=
   | Mint to token caller au =>
       same_members && same_admin && same_role_admins &&
       Bool.eqb ok (obs_has u p caller (ah_minter h) && has_auth au caller) &&
-      (if ok then eqb_on (obs_token u o token) (Some to) && same_appr else same_tokens)
+      (* a successful mint sets exactly this token's owner *)
+      (if ok then match index_of token (u_tokens u) with
+                  | Some k => eqb_list eqb_on (ob_tokens o) (set_nth (ob_tokens p) k (Some to))
+                  | None => false end && same_appr
+       else same_tokens)
   | MultiRoleAction caller au | MultiRoleAuthAction caller au =>
       unchanged && Bool.eqb ok (obs_any_role h p caller && has_auth au caller)
   | Burn from token au =>
       same_members && same_admin && same_role_admins &&
       Bool.eqb ok (obs_has u p from (ah_burner h) && has_auth au from && eqb_on (obs_token u p token) (Some from)) &&
-      (if ok then negb (is_some (obs_token u o token)) else same_tokens)
+      (* a successful burn removes exactly this token and its approval *)
+      (if ok then match index_of token (u_tokens u) with
+                  | Some k => eqb_list eqb_on (ob_tokens o) (set_nth (ob_tokens p) k None)
+                              && eqb_list eqb_on (ob_approved o) (set_nth (ob_approved p) k None)
+                  | None => false end else same_tokens)
   | BurnFrom spender from token au =>
       (* the role holder may burn its own token or one it is approved for *)
       same_members && same_admin && same_role_admins &&
       Bool.eqb ok (obs_has u p spender (ah_burner h) && has_auth au spender
                    && (N.eqb spender from || eqb_on (obs_appr u p token) (Some spender))
                    && eqb_on (obs_token u p token) (Some from)) &&
-      (if ok then negb (is_some (obs_token u o token)) else same_tokens)
+      (* a successful burn removes exactly this token and its approval *)
+      (if ok then match index_of token (u_tokens u) with
+                  | Some k => eqb_list eqb_on (ob_tokens o) (set_nth (ob_tokens p) k None)
+                              && eqb_list eqb_on (ob_approved o) (set_nth (ob_approved p) k None)
+                  | None => false end else same_tokens)
   | Approve approver approved token lu au =>
       (* not role-guarded: only the owner, with its authorisation, approves a spender for its token *)
       same_members && same_admin && same_role_admins && same_owners &&
@@ -230,11 +242,52 @@ Definition mon_step (h : aheader) (p : aobs) (it : aitem) : bool :=
       && eqb_list (fun n o' => match n with None => true | Some _ => eqb_on n o' end) (ob_approved o) (ob_approved p)
   end.
 
-Fixpoint mon_from (h : aheader) (p : aobs) (l : list aitem) (i : N) : N :=
+(* ---- WHO is the admin: the two-step hand-over, monitored with the clauses of C07 ---- *)
+(* the admin-related calls are read as calls of the C07 handshake; every other call must leave the
+   admin alone (a no-op for the handshake).  A known-finding step of C07 (class 1 there) is C07's
+   business: monitoring continues. *)
+Definition c07_hd (h : aheader) : C07.header :=
+  {| C07.h_kind := AC; C07.h_min := ah_min h; C07.h_max := ah_max h; C07.h_start := ah_start h; C07.h_holder := ah_admin h |}.
+Definition proj_call (cl : Access.call) : RoleTransfer.call :=
+  match cl with
+  | TransferAdmin n lu au => RoleTransfer.Offer n lu au
+  | AcceptAdmin au => RoleTransfer.Accept au
+  | RenounceAdmin au => RoleTransfer.Renounce au
+  | AdminRestricted au => RoleTransfer.Guarded au
+  | Access.Advance n => RoleTransfer.Advance n
+  | _ => RoleTransfer.Advance 0
+  end.
+Definition is_admin_call (cl : Access.call) : bool :=
+  match cl with
+  | TransferAdmin _ _ _ | AcceptAdmin _ | RenounceAdmin _ | AdminRestricted _ => true
+  | _ => false
+  end.
+Definition proj_item (it : aitem) : C07.item :=
+  let '(cl, ok, o) := it in
+  (proj_call cl, if is_admin_call cl then (if ok then Ok 0 else Fail) else Ok 0, (ob_admin o, ob_pending o)).
+Definition hand_step (h : aheader) (q : C07.mon) (it : aitem) : option C07.mon :=
+  C07.cont (C07.mon_step (c07_hd h) q (proj_item it)).
+
+Fixpoint mon_from (h : aheader) (p : aobs) (q : C07.mon) (l : list aitem) (i : N) : N :=
   match l with
   | [] => 0%N
-  | it :: r => if mon_step h p it then mon_from h (snd it) r (N.succ i) else N.succ i
+  | it :: r =>
+      if mon_step h p it then
+        match hand_step h q it with
+        | Some q' => mon_from h (snd it) q' r (N.succ i)
+        | None => N.succ i
+        end
+      else N.succ i
   end.
+
+(* what a freshly constructed contract shows: the admin handed to the constructor, nothing else *)
+Definition init_obs (h : aheader) : aobs :=
+  {| ob_admin := ah_admin h; ob_pending := None;
+     ob_roles := map (fun _ => {| ro_admin_role := None; ro_count := 0; ro_members := [None; None];
+                                  ro_has := map (fun _ => None) (u_accounts (ah_u h)) |}) (u_roles (ah_u h));
+     ob_existing := [];
+     ob_tokens := map (fun _ => None) (u_tokens (ah_u h));
+     ob_approved := map (fun _ => None) (u_tokens (ah_u h)) |}.
 
 (* ======================= monitor for the ownable contract (#[only_owner]) ======================= *)
 (* the restricted entry point runs exactly with the current owner's authorisation; once
@@ -253,10 +306,16 @@ Definition own_step (hp : option addr) (it : C07.item) : bool :=
       | RoleTransfer.Advance _ => eqb_on h' hp
       end
   end.
-Fixpoint own_from (hp : option addr) (l : list C07.item) (i : N) : N :=
+Fixpoint own_from (hd : C07.header) (hp : option addr) (q : C07.mon) (l : list C07.item) (i : N) : N :=
   match l with
   | [] => 0%N
-  | it :: r => if own_step hp it then own_from (fst (snd it)) r (N.succ i) else N.succ i
+  | it :: r =>
+      if own_step hp it then
+        match C07.cont (C07.mon_step hd q it) with     (* the ownership hand-over obeys the C07 clauses *)
+        | Some q' => own_from hd (fst (snd it)) q' r (N.succ i)
+        | None => N.succ i
+        end
+      else N.succ i
   end.
 
 (* ======================= the allow-list contract ======================= *)
@@ -292,56 +351,35 @@ Definition al_mon_step (h : alheader) (p : alobs) (it : alitem) : bool :=
            (if ok then match index_of user (u_accounts u) with Some k => set_nth (snd p) k v | None => snd p end
             else snd p)
   end.
-Fixpoint al_mon_from (h : alheader) (p : alobs) (l : list alitem) (i : N) : N :=
+Definition al_proj (it : alitem) : aitem :=
+  let '(cl, ok, o) := it in
+  match cl with ACall c => (c, ok, fst o) | _ => (Access.Advance 0, true, fst o) end.
+Fixpoint al_mon_from (h : alheader) (p : alobs) (q : C07.mon) (l : list alitem) (i : N) : N :=
   match l with
   | [] => 0%N
-  | it :: r => if al_mon_step h p it then al_mon_from h (snd it) r (N.succ i) else N.succ i
+  | it :: r =>
+      if al_mon_step h p it then
+        match hand_step (alh h) q (al_proj it) with
+        | Some q' => al_mon_from h (snd it) q' r (N.succ i)
+        | None => N.succ i
+        end
+      else N.succ i
   end.
 
-(* well-formedness of the header (what the harness guarantees): universe without duplicates *)
-Definition wf_aheader (h : aheader) : bool :=
-  nodupb (u_accounts (ah_u h)) && nodupb (u_roles (ah_u h)) && nodupb (u_tokens (ah_u h)) && (1 <=? ah_min h)
-  && (Z.of_nat (length (u_accounts (ah_u h))) <? MAXU32).
-
-Definition wf_alheader (h : alheader) : bool :=
-  match ah_admin (alh h) with Some a => existsb (N.eqb a) (u_accounts (ah_u (alh h))) | None => false end
-  && existsb (N.eqb (alh_macct h)) (u_accounts (ah_u (alh h)))
-  && existsb (N.eqb (alh_manager h)) (u_roles (ah_u (alh h))).
-
-Definition check (t : trace) : verdict :=
-  match t with
-  | TAllow h o0 l =>
-      (if wf_aheader (alh h) && wf_alheader h && eqb_alobs o0 (al_observe (ah_u (alh h)) (alh_init h))
-       then al_diff_from (alh_cfg h) (ah_u (alh h)) (alh_init h) l 0%N else 1%N,
-       if obs_consistent (ah_u (alh h)) (fst o0) then al_mon_from h o0 l 0%N else 1%N, 0%N)
-  | TAC h o0 l =>
-      (if wf_aheader h && eqb_aobs o0 (Access.observe (ah_u h) (ah_init h))
-       then diff_from (ah_cfg h) (ah_u h) (ah_init h) l 0%N else 1%N,
-       if obs_consistent (ah_u h) o0 then mon_from h o0 l 0%N else 1%N, 0%N)
-  | TOwn h l =>
-      (if C07.wf_header h then C07.diff_from (C07.h_kind h) (C07.h_cfg h) (C07.h_init h) l 0%N else 1%N,
-       own_from (C07.h_holder h) l 0%N, 0%N)
-  end.
-Definition check_all (ts : list trace) : list verdict := map check ts.
-
-(* the trace the model itself produces *)
-Fixpoint model_items (c : cfg) (u : universe) (s : st) (cs : list Access.call) : list aitem :=
-  match cs with
-  | [] => []
-  | cl :: r => let '(s', ok) := Access.step c s cl in (cl, ok, Access.observe u s') :: model_items c u s' r
-  end.
-Definition observe_model (h : aheader) (cs : list Access.call) : trace :=
-  TAC h (Access.observe (ah_u h) (ah_init h)) (model_items (ah_cfg h) (ah_u h) (ah_init h) cs).
-Definition observe_model_own (h : C07.header) (cs : list RoleTransfer.call) : trace :=
-  TOwn h (C07.model_items (C07.h_kind h) (C07.h_cfg h) (C07.h_init h) cs).
-
-Fixpoint al_model_items (c : alcfg) (u : universe) (s : alst) (cs : list alcall) : list alitem :=
-  match cs with
-  | [] => []
-  | cl :: r => let '(s', ok) := al_step c s cl in (cl, ok, al_observe u s') :: al_model_items c u s' r
-  end.
-Definition observe_model_allow (h : alheader) (cs : list alcall) : trace :=
-  TAllow h (al_observe (ah_u (alh h)) (alh_init h)) (al_model_items (alh_cfg h) (ah_u (alh h)) (alh_init h) cs).
+(* what the freshly constructed allow-list contract shows: the admin, exactly one role member - the account the
+   constructor was told, holding "manager" - and exactly the admin allowed *)
+Definition al_init_obs (h : alheader) : alobs :=
+  let u := ah_u (alh h) in
+  ({| ob_admin := ah_admin (alh h); ob_pending := None;
+      ob_roles := map (fun r => if N.eqb r (alh_manager h)
+                                then {| ro_admin_role := None; ro_count := 1; ro_members := [Some (alh_macct h); None; None];
+                                        ro_has := map (fun a => if N.eqb a (alh_macct h) then Some 0%N else None) (u_accounts u) |}
+                                else {| ro_admin_role := None; ro_count := 0; ro_members := [None; None];
+                                        ro_has := map (fun _ => None) (u_accounts u) |}) (u_roles u);
+      ob_existing := [alh_manager h];
+      ob_tokens := map (fun _ => None) (u_tokens u);
+      ob_approved := map (fun _ => None) (u_tokens u) |},
+   map (fun a => match ah_admin (alh h) with Some ad => N.eqb a ad | None => false end) (u_accounts u)).
 
 (* every account / role / token mentioned by a call belongs to the universe *)
 Definition inb (x : N) (l : list N) : bool := existsb (N.eqb x) l.
@@ -364,9 +402,59 @@ Definition wf_alcall (u : universe) (cl : alcall) : bool :=
   | ACall c => wf_call u c
   | AllowUser a b _ | DisallowUser a b _ => inb a (u_accounts u) && inb b (u_accounts u)
   end.
-Definition wf_admin (h : aheader) : bool :=
-  match ah_admin h with Some a => inb a (u_accounts (ah_u h)) | None => true end
-  && inb (ah_minter h) (u_roles (ah_u h)) && inb (ah_burner h) (u_roles (ah_u h)).
+(* well-formedness of the header (what the harness guarantees): universe without duplicates *)
+Definition wf_aheader (h : aheader) : bool :=
+  nodupb (u_accounts (ah_u h)) && nodupb (u_roles (ah_u h)) && nodupb (u_tokens (ah_u h)) && (ah_min h =? 1)
+  && (Z.of_nat (length (u_accounts (ah_u h))) <? MAXU32).
+
+Definition wf_alheader (h : alheader) : bool :=
+  match ah_admin (alh h) with Some a => existsb (N.eqb a) (u_accounts (ah_u (alh h))) | None => false end
+  && existsb (N.eqb (alh_macct h)) (u_accounts (ah_u (alh h)))
+  && existsb (N.eqb (alh_manager h)) (u_roles (ah_u (alh h)))
+  && negb (N.eqb (ah_max_roles (alh h)) 0).
+
+(* the monitor stands on its own: a malformed header, a call outside the universe or an initial
+   observation that is not the freshly constructed contract's is a monitor failure at index 1 *)
+Definition check (t : trace) : verdict :=
+  match t with
+  | TAllow h o0 l =>
+      let u := ah_u (alh h) in
+      (if wf_aheader (alh h) && wf_alheader h && eqb_alobs o0 (al_observe u (alh_init h))
+       then al_diff_from (alh_cfg h) u (alh_init h) l 0%N else 1%N,
+       if wf_aheader (alh h) && wf_alheader h && forallb (fun it => wf_alcall u (fst (fst it))) l
+          && eqb_alobs o0 (al_init_obs h)
+       then al_mon_from h o0 (C07.mon_init (c07_hd (alh h))) l 0%N else 1%N, 0%N)
+  | TAC h o0 l =>
+      (if wf_aheader h && eqb_aobs o0 (Access.observe (ah_u h) (ah_init h))
+       then diff_from (ah_cfg h) (ah_u h) (ah_init h) l 0%N else 1%N,
+       if wf_aheader h && forallb (fun it => wf_call (ah_u h) (fst (fst it))) l && eqb_aobs o0 (init_obs h)
+       then mon_from h o0 (C07.mon_init (c07_hd h)) l 0%N else 1%N, 0%N)
+  | TOwn h l =>
+      if C07.wf_header h then
+        (C07.diff_from (C07.h_kind h) (C07.h_cfg h) (C07.h_init h) l 0%N,
+         own_from h (C07.h_holder h) (C07.mon_init h) l 0%N, 0%N)
+      else (1%N, 1%N, 0%N)
+  end.
+Definition check_all (ts : list trace) : list verdict := map check ts.
+
+(* the trace the model itself produces *)
+Fixpoint model_items (c : cfg) (u : universe) (s : st) (cs : list Access.call) : list aitem :=
+  match cs with
+  | [] => []
+  | cl :: r => let '(s', ok) := Access.step c s cl in (cl, ok, Access.observe u s') :: model_items c u s' r
+  end.
+Definition observe_model (h : aheader) (cs : list Access.call) : trace :=
+  TAC h (Access.observe (ah_u h) (ah_init h)) (model_items (ah_cfg h) (ah_u h) (ah_init h) cs).
+Definition observe_model_own (h : C07.header) (cs : list RoleTransfer.call) : trace :=
+  TOwn h (C07.model_items (C07.h_kind h) (C07.h_cfg h) (C07.h_init h) cs).
+
+Fixpoint al_model_items (c : alcfg) (u : universe) (s : alst) (cs : list alcall) : list alitem :=
+  match cs with
+  | [] => []
+  | cl :: r => let '(s', ok) := al_step c s cl in (cl, ok, al_observe u s') :: al_model_items c u s' r
+  end.
+Definition observe_model_allow (h : alheader) (cs : list alcall) : trace :=
+  TAllow h (al_observe (ah_u (alh h)) (alh_init h)) (al_model_items (alh_cfg h) (ah_u (alh h)) (alh_init h) cs).
 
 (* ---------------- the monitor rejects bad traces ---------------- *)
 Definition ex_u : universe := {| u_accounts := [0; 1; 2; 3]%N; u_roles := [0; 1; 2]%N; u_tokens := [0; 1]%N |}.
@@ -455,3 +543,55 @@ Example C06_monitor_rejects_lapsed_state :
   mon_of (match good [Grant 1 0 0 [0]; Access.Advance 4000000]%N with
           | [a; (cl, ok, o)] => [a; (cl, ok, Access.observe ex_u (ah_init ex_h))] | l => l end) = 2%N.
 Proof. vm_compute. split; reflexivity. Qed.
+
+(* ---- traces of the adversarial review ---- *)
+Definition ob_after (cs : list Access.call) : aobs := Access.observe ex_u (Access.run (ah_cfg ex_h) (ah_init ex_h) cs).
+Definition with_admin (o : aobs) (a : option addr) : aobs :=
+  {| ob_admin := a; ob_pending := ob_pending o; ob_roles := ob_roles o; ob_existing := ob_existing o;
+     ob_tokens := ob_tokens o; ob_approved := ob_approved o |}.
+Definition with_tokens (o : aobs) (t : list (option addr)) : aobs :=
+  {| ob_admin := ob_admin o; ob_pending := ob_pending o; ob_roles := ob_roles o; ob_existing := ob_existing o;
+     ob_tokens := t; ob_approved := ob_approved o |}.
+Definition with_pending (o : aobs) (p : option (addr * Z)) : aobs :=
+  {| ob_admin := ob_admin o; ob_pending := p; ob_roles := ob_roles o; ob_existing := ob_existing o;
+     ob_tokens := ob_tokens o; ob_approved := ob_approved o |}.
+Definition mon_tr (t : trace) : N := snd (fst (check t)).
+
+(* the contract is born with a back-door member / another admin / another manager than the constructor was told *)
+Example C06_monitor_rejects_backdoor_at_birth :
+  mon_tr (TAC ex_h (ob_after [Grant 3 0 0 [0]]%N)
+            [(Mint 3 0 3 [3], true, ob_after [Grant 3 0 0 [0]; Mint 3 0 3 [3]])%N]) = 1%N /\
+  mon_tr (TAC ex_h (with_admin obs0 (Some 3%N))
+            [(AdminRestricted [3], true, with_admin obs0 (Some 3%N))%N]) = 1%N /\
+  mon_tr (TAllow ex_alh (al_observe ex_u (al_run (alh_cfg ex_alh) (alh_init ex_alh) [ACall (Grant 3 2 0 [0])]%N))
+            [(AllowUser 3 3 [3], true,
+              al_observe ex_u (al_run (alh_cfg ex_alh) (alh_init ex_alh) [ACall (Grant 3 2 0 [0]); AllowUser 3 3 [3]]))%N]) = 1%N.
+Proof. vm_compute. repeat split; reflexivity. Qed.
+(* admin / owner take-over through accept: no offer, an offer to somebody else, a failed transfer that left an entry *)
+Example C06_monitor_rejects_takeover :
+  mon_tr (TAC ex_h obs0 [(AcceptAdmin [3], true, with_admin obs0 (Some 3%N))%N;
+                         (AdminRestricted [3], true, with_admin obs0 (Some 3%N))%N]) = 1%N /\
+  mon_tr (TAC ex_h obs0 [(TransferAdmin 1 200 [0], true, ob_after [TransferAdmin 1 200 [0]])%N;
+                         (AcceptAdmin [3], true, with_admin obs0 (Some 3%N))%N]) = 2%N /\
+  mon_tr (TAC ex_h obs0 [(TransferAdmin 3%N 200 [3%N], false, with_pending obs0 (Some (3%N, 200)));
+                         (AcceptAdmin [3], true, with_admin obs0 (Some 3%N))%N]) = 2%N /\
+  mon_tr (TOwn C07.hd0 [(RoleTransfer.Accept [3%N], Ok 0, (Some 3%N, None));
+                        (RoleTransfer.Guarded [3%N], Ok 1, (Some 3%N, None))]) = 1%N /\
+  (* the legitimate hand-over interleaved with role traffic passes *)
+  mon_tr (TAC ex_h obs0 (good [TransferAdmin 1 200 [0]; Grant 2 0 0 [0]; Access.Advance 50; AcceptAdmin [1]; Grant 3 0 1 [1]; AdminRestricted [0]]%N)) = 0%N.
+Proof. vm_compute. repeat split; reflexivity. Qed.
+(* a successful mint / burn touching another token *)
+Example C06_monitor_rejects_other_tokens_touched :
+  mon_tr (TAC ex_h obs0 [(Grant 2 0 0 [0], true, ob_after [Grant 2 0 0 [0]])%N;
+                         (Mint 1 0 2 [2], true, with_tokens (ob_after [Grant 2 0 0 [0]]%N) [Some 1%N; Some 3%N])%N]) = 2%N /\
+  mon_tr (TAC ex_h obs0 (good [Grant 2 0 0 [0]; Grant 1 1 0 [0]; Mint 1 0 2 [2]; Mint 3 1 2 [2]]%N ++
+            [(Burn 1 0 [1], true, with_tokens (ob_after [Grant 2 0 0 [0]; Grant 1 1 0 [0]; Mint 1 0 2 [2]; Mint 3 1 2 [2]]%N) [None; None])%N])) = 5%N.
+Proof. vm_compute. split; reflexivity. Qed.
+(* malformed traces: a call outside the universe, a universe with a duplicate, min_temp_entry_ttl <> 1 *)
+Example C06_monitor_rejects_malformed :
+  mon_tr (TAC ex_h obs0 [(Grant 9 0 0 [0], true, obs0)%N]) = 1%N /\
+  mon_tr (TAC {| ah_min := 1; ah_max := 5000; ah_start := 100; ah_admin := Some 0%N; ah_max_roles := 256%N; ah_minter := 0%N; ah_burner := 1%N;
+                 ah_u := {| u_accounts := [0; 1; 1]%N; u_roles := [0]%N; u_tokens := [] |} |}
+              (Access.observe {| u_accounts := [0; 1; 1]%N; u_roles := [0]%N; u_tokens := [] |} (ah_init ex_h)) []) = 1%N /\
+  mon_tr (TOwn C07.hd16 []) = 1%N.
+Proof. vm_compute. repeat split; reflexivity. Qed.
